@@ -308,6 +308,7 @@ class State:
         self.ret = None
         self.note = None
         self.steps = 0
+        self.loops_entered = frozenset()
 
     def clone(self):
         c = State.__new__(State)
@@ -319,6 +320,7 @@ class State:
         c.ret = copy.deepcopy(self.ret, memo)
         c.note = self.note
         c.steps = self.steps
+        c.loops_entered = self.loops_entered
         return c
 
     def stack(self):
@@ -404,7 +406,7 @@ class Machine:
     MAX_STEPS = 400000
     LOOP_LIMIT = 2
 
-    def __init__(self, facts, summaries=(), models=None, stop_at=(), on_event=None):
+    def __init__(self, facts, summaries=(), models=None, stop_at=(), on_event=None, havoc_loops=False):
         from . import models as modelmod
         self.facts = facts
         self.ptr_bits = facts.ptr_bits
@@ -416,6 +418,9 @@ class Machine:
         self.const_cache = {}
         self.ev_counter = [0]
         self.notes = []
+        self.entered = set()
+        self.havoc_loops = havoc_loops
+        self.loop_info = None
 
     # ---------------------------------------------------------------- symbolic values by type
     def sym_value(self, e, ty, depth=0):
@@ -486,6 +491,7 @@ class Machine:
             fr.locals[1 + i].val = a
         fr.gmap = dict(gmap or {})
         st.frames.append(fr)
+        self.entered.add(path)
         return st
 
     def run_fn(self, path, args, gmap=None):
@@ -508,6 +514,19 @@ class Machine:
                 return [st]
             if stop is not None and len(st.frames) < stop[0]:
                 return [st]
+            if self.havoc_loops and len(st.frames) == 1:
+                if self.loop_info is None:
+                    self.loop_info = self.compute_loop_info(fr.body)
+                if fr.block in self.loop_info:
+                    if fr.block in st.loops_entered:
+                        st.status = "backedge"
+                        st.note = "back edge to bb%d" % fr.block
+                        return [st]
+                    st.loops_entered = st.loops_entered | {fr.block}
+                    names = {d["place"]["l"]: d["name"] for d in fr.body["debug"] if not d["place"]["p"]}
+                    for l in sorted(self.loop_info[fr.block]):
+                        ty = fr.body["locals"][l]["ty"]
+                        fr.locals[l].val = self.sym_value(E("loopvar", (names.get(l, "_%d" % l),)), ty)
             st.steps += 1
             if st.steps > self.MAX_STEPS:
                 raise Unsupported("step limit exceeded in %s" % fr.fn)
@@ -521,7 +540,7 @@ class Machine:
             results = []
             for val, tgt in arms:
                 c = st.clone()
-                c.decisions.append((cond, val, span, fr.fn))
+                c.decisions.append((cond, val, span, fr.fn, len(st.trace)))
                 if isinstance(tgt, tuple):
                     _, term, value = tgt
                     cf = c.frames[-1]
@@ -546,6 +565,35 @@ class Machine:
                 for s in r:
                     out.extend(self.run(s, stop))
             return out
+
+    def compute_loop_info(self, body):
+        """header block -> set of locals that may be assigned inside the natural loop (havocked on entry)."""
+        g = self.cfg(body)
+        info = {}
+        for a, h in g.back_edges():
+            blocks = {h, a}
+            stack = [a]
+            while stack:
+                x = stack.pop()
+                if x == h:
+                    continue
+                for p in g.pred[x]:
+                    if p not in blocks:
+                        blocks.add(p)
+                        stack.append(p)
+            assigned = info.setdefault(h, set())
+            for b in blocks:
+                blk = body["blocks"][b]
+                for stmt in blk["stmts"]:
+                    if stmt["k"] == "assign":
+                        assigned.add(stmt["place"]["l"])
+                        rv = stmt["rv"]
+                        if rv["k"] in ("ref", "rawptr") and rv["mut"]:
+                            assigned.add(rv["place"]["l"])
+                t = blk["term"]
+                if t["k"] == "call":
+                    assigned.add(t["dest"]["l"])
+        return info
 
     # ---------------------------------------------------------------- merging (if-conversion)
     def merge(self, base, cond, arms, ends):
@@ -615,7 +663,8 @@ class Machine:
         if isinstance(x, FnVal):
             if x.path == y.path:
                 return x
-            return Opaque(E("gamma", (c, E("fnaddr", (x.path,)), E("fnaddr", (y.path,)))), None)
+            w = self.ptr_bits
+            return Int(w, False, E("gamma", (c, E("fnaddr", (x.path,), w), E("fnaddr", (y.path,), w)), w))
         if isinstance(x, IterV):
             if x.kind == y.kind:
                 return IterV(x.kind, self.merge_val(c, x.a, y.a) if x.a is not None else None,
@@ -1097,7 +1146,7 @@ class Machine:
         if body is not None and not c["foreign"]:
             if name in self.summaries or name in self.auto_summaries:
                 ret = self.fresh(st, name, dest_ty)
-                self.event(st, "summary", name, args, ret, span)
+                self.event(st, "summary", name, args, ret, span, extra={"effectful": self.facts.effectful(name)})
                 return self.finish_call(st, fr, t, dest_lv, ret)
             if name in self.stop_at:
                 ret = self.fresh(st, name, dest_ty)
@@ -1112,7 +1161,15 @@ class Machine:
         model = self.find_model(name)
         if model is not None:
             ctx = CallCtx(self, st, fr, t, name, gargs, dest_ty, span, dest_lv)
-            res = model(self, st, ctx, args, span)
+            try:
+                res = model(self, st, ctx, args, span)
+            except Unsupported as e:
+                # outside the modelled subset: treat as an unknown external call (sound: result fresh, &mut arguments havocked)
+                self.notes.append(("model-fallback", name, str(e)))
+                ret = self.fresh(st, name, dest_ty)
+                self.havoc_mut_args(st, name, args)
+                self.event(st, "ext", name, args, ret, span, extra={"gargs": gargs, "fallback": str(e)})
+                return self.finish_call(st, fr, t, dest_lv, ret)
             if isinstance(res, Enter):
                 return self.enter(st, fr, res.path, [], res.args, dest_lv, t, span)
             if res is DIVERGE:
@@ -1177,6 +1234,7 @@ class Machine:
             raise Unsupported("call destination is not a tracked place")
         nf.dest = (dest_lv.cell, dest_lv.path)
         nf.target = t["target"]
+        self.entered.add(path)
         fn = self.facts.fns.get(path)
         if fn and fn.get("generics"):
             names = fn["generics"]
